@@ -111,8 +111,14 @@ type State struct {
 	condIdx []int  // indices into pc that are branch conditions
 	pend    string // goal of the last obligation (its assumption is a branch condition)
 	epoch    string                  // id of the last heap havoc on this path
+	modEpoch []modEpoch              // partial havocs (modifies items) since then
 	arrElems map[*Cell]map[int64]Val // Go-side view of local array literals (varargs)
 	resp    []RespEvent              // ghost HTTP response: header sets, status, body writes
+}
+
+type modEpoch struct {
+	item string
+	id   string
 }
 
 type RespEvent struct {
@@ -149,6 +155,7 @@ func (st *State) clone() *State {
 		condIdx: st.condIdx[:len(st.condIdx):len(st.condIdx)],
 		resp:    st.resp[:len(st.resp):len(st.resp)],
 		epoch:   st.epoch,
+		modEpoch: st.modEpoch[:len(st.modEpoch):len(st.modEpoch)],
 	}
 	if len(st.arrElems) > 0 {
 		n.arrElems = make(map[*Cell]map[int64]Val, len(st.arrElems))
@@ -274,6 +281,7 @@ type Exec struct {
 	exitFrame *Frame
 	privateRefs []privateRef
 	epochN int
+	freshTypes map[string]types.Type
 }
 
 type privateRef struct {
@@ -327,11 +335,19 @@ func (x *Exec) heapGet(st *State, key, sort string) Term {
 		t = Term{name, sort}
 		x.entryHeap[key] = t
 	}
-	if st.epoch != "" && !((strings.HasPrefix(key, "G_") && x.L.immutableGlobal[key]) || x.immutComp(key)) {
-		// first touched after a havoc: its content is that havoc's, not the entry heap's
-		name := "Hh" + st.epoch + "_" + sanitize(key)
-		x.d.DeclareFun(name, fmt.Sprintf("(declare-const %s %s)", name, sort))
-		t = Term{name, sort}
+	if !((strings.HasPrefix(key, "G_") && x.L.immutableGlobal[key]) || x.immutComp(key)) {
+		id := st.epoch
+		for _, me := range st.modEpoch {
+			if modifiesMatch(me.item, key) {
+				id = me.id
+			}
+		}
+		if id != "" {
+			// first touched after a havoc: its content is that havoc's, not the entry heap's
+			name := "Hh" + id + "_" + sanitize(key)
+			x.d.DeclareFun(name, fmt.Sprintf("(declare-const %s %s)", name, sort))
+			t = Term{name, sort}
+		}
 	}
 	st.heap[key] = t
 	return t
@@ -397,6 +413,7 @@ func (x *Exec) havocHeap(st *State, why string) {
 	}
 	x.epochN++
 	st.epoch = fmt.Sprintf("%d", x.epochN)
+	st.modEpoch = nil
 	for c := range st.esc {
 		if v, ok := st.cells[c]; ok {
 			nv := x.freshVal(st, "esc_"+c.name, c.typ)
@@ -426,6 +443,35 @@ func (x *Exec) immutComp(k string) bool {
 		}
 	}
 	return x.immutKeys[k]
+}
+
+// addPrivateFields: the objects a private object points to directly (pointer
+// fields to structs) are private too.
+func (x *Exec) addPrivateFields(st *State, ref Term, T types.Type) {
+	si := x.te.Struct(T)
+	for i, ft := range si.FTypes {
+		pt, ok := ft.Underlying().(*types.Pointer)
+		if !ok {
+			continue
+		}
+		if _, isStruct := pt.Elem().Underlying().(*types.Struct); !isStruct {
+			continue
+		}
+		key, sort := x.fieldComp(si, i)
+		x.privateRefs = append(x.privateRefs, privateRef{Select(x.heapGet(st, key, sort), ref), pt.Elem()})
+	}
+}
+
+// isFresh: the reference is one of the objects allocated on this path.
+func (x *Exec) isFresh(st *State, ref Term) Term {
+	var alts []Term
+	for k := range st.ghost {
+		if strings.HasPrefix(k, "fresh:") {
+			alts = append(alts, Eq(ref, Term{k[len("fresh:"):], "Int"}))
+		}
+	}
+	sort.Slice(alts, func(i, j int) bool { return alts[i].S < alts[j].S })
+	return Or(alts...)
 }
 
 func (x *Exec) freshRef(st *State) Term {
@@ -563,6 +609,9 @@ func (x *Exec) store(st *State, l *Loc, v Val) {
 		arr := x.heapGet(st, key, sort)
 		x.lockCheck(st, l, "write")
 		x.immutCheck(st, l)
+		if !x.frameAllows(key) && st.ghost["fresh:"+l.Base.S].S != "true" {
+			x.oblige(st, "FRAME", fmt.Sprintf("frame(store to %s at %s)", x.fieldKey(l.ST, l.Idx), x.posText(x.curPos)), x.isFresh(st, l.Base), "store outside the declared modifies clause")
+		}
 		st.heap[key] = Store(arr, l.Base, x.termOf(st, &v))
 	case LSub:
 		pv := x.load(st, l.Parent, l.ST)
@@ -993,6 +1042,28 @@ func (x *Exec) doStore(fr *Frame, st *State, in *ssa.Store) {
 	if v.Clo != nil {
 		if l := addr.Loc; l == nil || l.Kind != LCell {
 			x.escapeClosure(st, v.Clo)
+		}
+	}
+	if x.ctr != nil && len(x.ctr.Private) > 0 && addr.Loc != nil && addr.Loc.Kind == LCell && fr.fn == x.fn && !v.T.IsZero() {
+		for _, pn := range x.ctr.Private {
+			if pn != addr.Loc.Cell.name {
+				continue
+			}
+			if pt, ok := elem.Underlying().(*types.Pointer); ok {
+				if _, isStruct := pt.Elem().Underlying().(*types.Struct); isStruct {
+					dup := false
+					for _, pr := range x.privateRefs {
+						if pr.Ref.S == v.T.S {
+							dup = true
+						}
+					}
+					if !dup {
+						x.privateRefs = append(x.privateRefs, privateRef{v.T, pt.Elem()})
+						x.addPrivateFields(st, v.T, pt.Elem())
+						x.funcsUsed["assume:separation: the object held in local "+pn+" of "+x.fnKey+" is not modified by foreign code"] = true
+					}
+				}
+			}
 		}
 	}
 	x.store(st, x.locOfPointer(st, addr, elem), v)
